@@ -481,12 +481,13 @@ class Facts:
         return seen
 
     def callers_of(self, key):
-        out = []
-        for k, f in self.funcs.items():
-            for kind, tgt, b, t in self.call_edges(f):
-                if tgt == key:
-                    out.append((f, kind, b, t))
-        return out
+        if getattr(self, "_rev", None) is None:
+            rev = defaultdict(list)
+            for k, f in self.funcs.items():
+                for kind, tgt, b, t in self.call_edges(f):
+                    rev[tgt].append((f, kind, b, t))
+            self._rev = rev
+        return self._rev.get(key, [])
 
 
 class AnchorMissing(Exception):
